@@ -143,7 +143,9 @@ func unpackPPTPayload(details wamp.Dict, args wamp.List) (wamp.List, wamp.Dict, 
 	if ok && pptSerializerStr != "native" {
 
 		var serializer serialize.Serializer
-		pptSerializer, ok := PPTSerializers[pptSerializerStr.(string)]
+		// Details are set by other peers and may hold any type.
+		serializerName, _ := pptSerializerStr.(string)
+		pptSerializer, ok := PPTSerializers[serializerName]
 		if !ok {
 			return nil, nil, ErrPPTSerializerInvalid
 		}
@@ -159,12 +161,28 @@ func unpackPPTPayload(details wamp.Dict, args wamp.List) (wamp.List, wamp.Dict, 
 			// In future should be extended with FlatBuffers
 		}
 
-		if err := serializer.DeserializeDataItem(args[0].([]byte), &payloadTyped); err != nil {
+		if len(args) == 0 {
+			return nil, nil, ErrSerialization
+		}
+		bin, ok := args[0].([]byte)
+		if !ok {
+			return nil, nil, ErrSerialization
+		}
+		if err := serializer.DeserializeDataItem(bin, &payloadTyped); err != nil {
 			return nil, nil, ErrSerialization
 		}
 
 	} else {
-		payloadTyped = args[0].(*wamp.PassthruPayload)
+		if len(args) == 0 {
+			return nil, nil, ErrSerialization
+		}
+		payloadTyped, ok = args[0].(*wamp.PassthruPayload)
+		if !ok {
+			return nil, nil, ErrSerialization
+		}
+	}
+	if payloadTyped == nil {
+		return nil, nil, ErrSerialization
 	}
 
 	return payloadTyped.Arguments, payloadTyped.ArgumentsKw, nil
@@ -200,7 +218,9 @@ func packE2EEPayload(options wamp.Dict, args wamp.List, kwargs wamp.Dict) (wamp.
 
 func unpackE2EEPayload(details wamp.Dict, args wamp.List) (wamp.List, wamp.Dict, error) {
 	var serializer serialize.Serializer
-	pptSerializer, ok := E2eeSerializers[details[wamp.OptPPTSerializer].(string)]
+	// Details are set by other peers and may hold any type.
+	serializerName, _ := details[wamp.OptPPTSerializer].(string)
+	pptSerializer, ok := E2eeSerializers[serializerName]
 	if !ok {
 		return nil, nil, ErrPPTSerializerInvalid
 	}
@@ -212,8 +232,15 @@ func unpackE2EEPayload(details wamp.Dict, args wamp.List) (wamp.List, wamp.Dict,
 		// In future should be extended with FlatBuffers
 	}
 
+	if len(args) == 0 {
+		return nil, nil, ErrSerialization
+	}
+	bin, ok := args[0].([]byte)
+	if !ok {
+		return nil, nil, ErrSerialization
+	}
 	var payloadTyped wamp.PassthruPayload
-	if err := serializer.DeserializeDataItem(args[0].([]byte), &payloadTyped); err != nil {
+	if err := serializer.DeserializeDataItem(bin, &payloadTyped); err != nil {
 		return nil, nil, ErrSerialization
 	}
 
